@@ -528,17 +528,23 @@ def int_dtype(p):
     X = np.full((N, N), hi, dtype=dt)
     X[0, 0] = 0 if dt == np.bool_ else hi - 1
     S = list(p["sys"])
-    got = np.asarray(partial_trace(X, S, list(d)))
-    exp = R.ref_partial_trace(X.astype(object), S, d)
-    if got.shape != exp.shape or any(int(got[i]) != int(exp[i]) for i in np.ndindex(*exp.shape)):
-        raise Violation("partial_trace on dtype %s: got %s, exact integer sums are %s" % (dt, got.tolist(), exp.tolist()))
-    perm = list(range(1, len(d))) + [0]
-    g2 = np.asarray(permute_systems(X, perm, list(d)))
-    if not np.array_equal(g2.astype(object), R.ref_permute(X.astype(object), perm, d, d)):
-        raise Violation("permute_systems on dtype %s changes entries" % dt)
-    g3 = np.asarray(partial_transpose(X, [0], list(d)))
-    if not np.array_equal(g3.astype(object), R.ref_partial_transpose(X.astype(object), [0], d, d)):
-        raise Violation("partial_transpose on dtype %s changes entries" % dt)
+    only = p.get("only", "partial_trace")  # each property judges its own function only
+    if only == "partial_trace":
+        got = np.asarray(partial_trace(X, S, list(d)))
+        exp = R.ref_partial_trace(X.astype(object), S, d)
+        if got.shape != exp.shape or any(int(got[i]) != int(exp[i]) for i in np.ndindex(*exp.shape)):
+            raise Violation("partial_trace on dtype %s: got %s, exact integer sums are %s" % (dt, got.tolist(), exp.tolist()))
+    if only == "permute_systems":
+        perm = list(range(1, len(d))) + [0]
+        g2 = np.asarray(permute_systems(X, perm, list(d)))
+        if not np.array_equal(g2.astype(object), R.ref_permute(X.astype(object), perm, d, d)):
+            raise Violation("permute_systems on dtype %s changes entries" % dt)
+        if g2.dtype != dt:
+            raise Violation("permute_systems changed dtype %s to %s" % (dt, g2.dtype))
+    if only == "partial_transpose":
+        g3 = np.asarray(partial_transpose(X, [0], list(d)))
+        if not np.array_equal(g3.astype(object), R.ref_partial_transpose(X.astype(object), [0], d, d)):
+            raise Violation("partial_transpose on dtype %s changes entries" % dt)
 
 
 CLAUSES["frame.args"] = frame_args
